@@ -103,7 +103,7 @@ func (c *Ctx) checkExitPaths(fn *ssa.Function, depth int) {
 	allInstrs(fn, func(in ssa.Instruction) {
 		if call, ok := in.(*ssa.Call); ok {
 			n := calleeName(&call.Call)
-			if strings.HasSuffix(n, "cobra.(*Command).Execute") || strings.HasSuffix(n, "cobra.(*Command).ExecuteContext") {
+			if strings.HasSuffix(n, "cobra.Command.Execute") || strings.HasSuffix(n, "cobra.Command.ExecuteContext") {
 				exec = call
 			}
 		}
@@ -181,7 +181,7 @@ func (c *Ctx) checkRunReturns(fn *ssa.Function) {
 	key := "cmd.main|Execute-error"
 	var exec *ssa.Call
 	allInstrs(fn, func(in ssa.Instruction) {
-		if call, ok := in.(*ssa.Call); ok && strings.HasSuffix(calleeName(&call.Call), "cobra.(*Command).Execute") {
+		if call, ok := in.(*ssa.Call); ok && strings.HasSuffix(calleeName(&call.Call), "cobra.Command.Execute") {
 			exec = call
 		}
 	})
@@ -820,7 +820,7 @@ func ruleReject(c *Ctx) {
 		}
 	}
 	// DynamicSign: unknown string -> error in UnmarshalYAML
-	if fn := c.fn("op", "(*DynamicSign).UnmarshalYAML"); fn != nil {
+	if fn := c.fn("op", "DynamicSign.UnmarshalYAML"); fn != nil {
 		c.site(1)
 		good := false
 		unk := c.enumConsts("op", "DynamicSign")["UnknownDynamicSign"]
@@ -839,9 +839,9 @@ func ruleReject(c *Ctx) {
 				}
 			}
 		})
-		c.check(good, "op.(*DynamicSign).UnmarshalYAML|unknown", c.pos(fn.Pos()), fname(fn), "an unknown dynamic is refused", "an unknown dynamic sign is no longer an error when read from YAML")
+		c.check(good, "op.DynamicSign.UnmarshalYAML|unknown", c.pos(fn.Pos()), fname(fn), "an unknown dynamic is refused", "an unknown dynamic sign is no longer an error when read from YAML")
 	} else {
-		c.missing("op.(*DynamicSign).UnmarshalYAML")
+		c.missing("op.DynamicSign.UnmarshalYAML")
 	}
 }
 
@@ -1037,8 +1037,8 @@ func (c *Ctx) allConstArgs(cc *ssa.CallCommon) bool {
 // RECUR
 
 var reviewedCycles = map[string]string{
-	"input/ast.(*IterVisitor).VisitChord,input/ast.(*IterVisitor).VisitChordBase,input/ast.(*IterVisitor).VisitChordList,input/ast.(*IterVisitor).VisitChordMeta,input/ast.(*IterVisitor).VisitChordValues,input/ast.(*IterVisitor).VisitRest,input/ast.VisitSwitch,input/ast.(*MapVisitor).VisitChord,input/ast.(*MapVisitor).VisitChordBase,input/ast.(*MapVisitor).VisitChordList,input/ast.(*MapVisitor).VisitChordMeta,input/ast.(*MapVisitor).VisitChordValues,input/ast.(*MapVisitor).VisitRest": "visitors over the finite AST (depth <= 4: list, chord, base/values/meta, leaf)",
-	"input/ast.(*LexScanner).ScanFunc": "re-enters itself after a `;` comment; each level consumes at least the `;` (and, by EOFPRED, the comment loop stops at end of input)",
+	"input/ast.IterVisitor.VisitChord,input/ast.IterVisitor.VisitChordBase,input/ast.IterVisitor.VisitChordList,input/ast.IterVisitor.VisitChordMeta,input/ast.IterVisitor.VisitChordValues,input/ast.IterVisitor.VisitRest,input/ast.VisitSwitch,input/ast.MapVisitor.VisitChord,input/ast.MapVisitor.VisitChordBase,input/ast.MapVisitor.VisitChordList,input/ast.MapVisitor.VisitChordMeta,input/ast.MapVisitor.VisitChordValues,input/ast.MapVisitor.VisitRest": "visitors over the finite AST (depth <= 4: list, chord, base/values/meta, leaf)",
+	"input/ast.LexScanner.ScanFunc": "re-enters itself after a `;` comment; each level consumes at least the `;` (and, by EOFPRED, the comment loop stops at end of input)",
 	"chord.Map.GetChordAttributes":     "follows `extends`; acyclic because Map.validate rejects cyclic extends and NewMap is the only constructor (checked below)",
 }
 
@@ -1340,7 +1340,7 @@ func (c *Ctx) checkCondLoops() {
 
 var errDropLib = map[string]bool{
 	"gopkg.in/yaml.v3.Unmarshal": true, "gopkg.in/yaml.v3.Marshal": true, "io.ReadAll": true, "os.Open": true, "os.Create": true,
-	"gopkg.in/yaml.v3.(*Node).Decode": true,
+	"gopkg.in/yaml.v3.Node.Decode": true,
 }
 
 var reviewedErrDrops = map[string]string{
